@@ -101,22 +101,25 @@ struct OptimOps {
     switch (op.p[0]) {
       case 0: {
         G x = a;
-        const auto r = smooth::minimize(
-          [&b, opp](const auto& v) -> T { h::cb_tick(*opp); return smooth::rminus(v, b); }, smooth::wrt(x), opts);
+        Out* outp = &out;
+        const auto r = smooth::minimize<Type::Default>(
+          [&b, opp](const auto& v) -> T { h::cb_tick(*opp); return smooth::rminus(v, b); }, smooth::wrt(x),
+          [outp](const auto& xi) { put_elem(*outp, xi); }, opts);
         put_elem(out, x);
         put_result(out, r);
         break;
       }
       case 1: {
         G x1 = a, x2 = b;
-        const auto r = smooth::minimize(
+        Out* outp = &out;
+        const auto r = smooth::minimize<Type::Default>(
           [opp](const auto& v1, const auto& v2) {
             h::cb_tick(*opp);
             Eigen::Matrix<double, 3 * smooth::Dof<G>, 1> ret;
             ret << smooth::log(v1), smooth::log(v2), smooth::rminus(v1, v2) - T::Ones() * 0.1;
             return ret;
           },
-          smooth::wrt(x1, x2), opts);
+          smooth::wrt(x1, x2), [outp](const auto& y1, const auto& y2) { put_elem(*outp, y1); put_elem(*outp, y2); }, opts);
         put_elem(out, x1);
         put_elem(out, x2);
         put_result(out, r);
